@@ -62,7 +62,7 @@ Shape(bi, hi, e, k) ==
      fields |-> HeaderSets[hi], framing |-> b.framing, bodyLen |-> b.bodyLen, chunks |-> b.chunks,
      hexUpper |-> (k % 2 = 0), chunkExt |-> (b.framing = "chunked" /\ k % 3 = 0),
      trailers |-> IF b.framing = "chunked" /\ k % 2 = 1 THEN <<T("X-T", "x-t", "tv")>> ELSE << >>,
-     expect100 |-> e, close |-> FALSE, clStyle |-> Styles[(k % 4) + 1], bodyLit |-> ""]
+     expect100 |-> e, close |-> FALSE, clStyle |-> Styles[(k % 4) + 1], bodyLit |-> "", raw |-> ""]
 
 ShapeIdx == {<<bi, hi, e>> : bi \in 1 .. Len(Bodies), hi \in 1 .. Len(HeaderSets), e \in BOOLEAN}
 ValidIdx == SetToSeq({x \in ShapeIdx : x[3] => Bodies[x[1]].framing # "none"})
@@ -71,7 +71,7 @@ Singles == [k \in 1 .. Len(ValidIdx) |-> Shape(ValidIdx[k][1], ValidIdx[k][2], V
 \* probe requests used as pipelined followers
 Probe(m, t, fr, n, cs) == [method |-> m, target |-> t, ver |-> "1.1", fields |-> <<HostField, F("x-a", "canon", <<"probe">>)>>,
                            framing |-> fr, bodyLen |-> n, chunks |-> cs, hexUpper |-> FALSE, chunkExt |-> FALSE,
-                           trailers |-> << >>, expect100 |-> FALSE, close |-> FALSE, clStyle |-> "canon", bodyLit |-> ""]
+                           trailers |-> << >>, expect100 |-> FALSE, close |-> FALSE, clStyle |-> "canon", bodyLit |-> "", raw |-> ""]
 Probes == << Probe("GET", "/probe", "none", 0, << >>),
              Probe("POST", "/probe?x=1", "cl", 5, << >>),
              Probe("PUT", "/probe", "chunked", 7, <<3, 4>>),
